@@ -17,8 +17,8 @@ import vlib
 
 LEVEL = "proof"
 PID = "C12"
-QUICK = {"cases": 1152, "shards": 8}
-THOROUGH = {"cases": 38400, "shards": 32}
+QUICK = {"cases": 1344, "shards": 8}
+THOROUGH = {"cases": 35840, "shards": 32}
 BOOLS = ["allow_compressed_keys", "allow_duplicate_keys", "allow_dup_if", "allow_malleability", "allow_multi",
          "allow_multi_a", "allow_mixed_time_locks", "allow_or_i", "allow_raw_pkh", "allow_sigless_branch", "allow_non_b",
          "allow_uncompressed_keys", "allow_unsatisfiable", "allow_x_only_keys", "allow_inconsistent_multipath_keys"]
@@ -328,8 +328,9 @@ def run(rep, tier, seed, replay):
             for (cid, kind, (cls, st, a, b, impl, model)) in [(t[0], t[1], t[2:]) for t in diag]:
                 n_diff += 1
                 what = {0: "Miniscript::validate(pset %d)" % a, 1: "Miniscript::validate(pset %d, %s=%d)" % (a, LIMS[(b >> 64) % 5], b & ((1 << 64) - 1)),
-                        2: "%s (pset %d)" % (ENTRY.get(a, a), b)}[cls]
-                gk = "%s: implementation %s / model %s" % (re.sub(r"\d+", "N", what), CODES.get(impl, impl), CODES.get(model, model))
+                        2: "%s (pset %d)" % (ENTRY.get(a, a), b), 3: "ext.tree_height of the built object"}[cls]
+                nm = (lambda v: v) if cls == 3 else (lambda v: CODES.get(v, v))
+                gk = "%s: implementation %s / model %s" % (re.sub(r"\d+", "N", what), nm(impl), nm(model))
                 groups.setdefault(gk, []).append((cid, kind, what, impl, model))
             # first: the disagreeing cases themselves, judged by the oracle; then more cases of the same recipe/context
             searched = set()
@@ -338,9 +339,9 @@ def run(rep, tier, seed, replay):
                 r = by_id.get(cid, {})
                 found = [v for v in r.get("violations", []) if not v[0].startswith("advisory:")]
                 unknown = [v for v in found if v[0] not in {kf["key"] for kf in rep.known}]
-                if not unknown and cid < 1_000_000 and (cid % 96) not in searched:
-                    searched.add(cid % 96)
-                    ids = ",".join(str(cid % 96 + 96 * j) for j in range(200, 320))
+                if not unknown and cid < 1_000_000 and (cid % 112) not in searched:
+                    searched.add(cid % 112)
+                    ids = ",".join(str(cid % 112 + 112 * j) for j in range(200, 320))
                     dd = os.path.join(wdir(), "search")
                     shutil.rmtree(dd, ignore_errors=True); os.makedirs(dd)
                     vlib.sh([hbin, "validate", "cases", str(seed), "ids:" + ids, os.path.join(dd, "x.v"), os.path.join(dd, "obs.jsonl")], timeout=1200)
@@ -393,7 +394,7 @@ def run(rep, tier, seed, replay):
         "params": pinfo, "cases": len(all_rows), "cases_parsed": len(parsed), "calls_replayed_on_model_in_coq": calls,
         "differing_calls": n_diff, "class_only_differences_advisory": class_diffs,
         "evaluations": calls + pinfo["lattice_rows_compared_in_coq"] + pinfo["primitive_rows_compared_in_coq"], "distinct_nontrivial": len({r.get("string") for r in all_rows}),
-        "rule": "24 recipes x 4 contexts (sane, each defect class, near-limit figures, boundary locks/thresholds, ill-typed) + corpus; "
+        "rule": "28 recipes x 4 contexts (sane, each defect class, near-limit figures, boundary locks/thresholds, ill-typed) + corpus; "
                 "every entry point; parameter sets: MAX, SANE, CONSENSUS, MAX minus each switch, per context CONSENSUS/SANE and every "
                 "single flip of both, limits at figure-1/figure/figure+1",
         "histograms": {k: dict(sorted(v.items())) for k, v in hist.items()},
